@@ -224,11 +224,27 @@ def run(ctx) -> list[Inst]:
                         values[p2f[kw.arg]] = (kw.value, ctor)
         # later assignments copied.F = ...
         appended_in_loop = {}   # field -> (loop iter field, value expr)
+        mutated_fields = set()  # copied.F.<method>(..) / copied.F[..] = ..  in a form not interpreted below
         for n in own_nodes(f.node):
             if isinstance(n, ast.Assign):
                 for tg in n.targets:
                     if isinstance(tg, ast.Attribute) and isinstance(tg.value, ast.Name) and tg.value.id == copied:
                         values[tg.attr] = (n.value, n)
+                    if isinstance(tg, ast.Subscript) and isinstance(tg.value, ast.Attribute) \
+                            and isinstance(tg.value.value, ast.Name) and tg.value.value.id == copied:
+                        mutated_fields.add(tg.value.attr)
+            if isinstance(n, ast.Call) and isinstance(n.func, ast.Attribute) and isinstance(n.func.value, ast.Attribute) \
+                    and isinstance(n.func.value.value, ast.Name) and n.func.value.value.id == copied:
+                F_ = n.func.value.attr
+                if n.func.attr == 'extend' and len(n.args) == 1 and isinstance(n.args[0], (ast.GeneratorExp, ast.ListComp)) \
+                        and F_ not in values:
+                    # the constructor's fresh list filled in one go: copied.F.extend(deepcopy(x, memo) for x in self.F)
+                    lc = ast.ListComp(elt=n.args[0].elt, generators=n.args[0].generators)
+                    ast.copy_location(lc, n.args[0])
+                    ast.fix_missing_locations(lc)
+                    values[F_] = (lc, n)
+                elif n.func.attr in ('append', 'extend', 'update', 'add', 'insert', 'setdefault'):
+                    mutated_fields.add(F_)
             if isinstance(n, ast.For) and isinstance(n.target, ast.Name):
                 itc = classify(n.iter, selfn, memon)
                 if itc[0] == 'self':
@@ -263,6 +279,11 @@ def run(ctx) -> list[Inst]:
             if val is None and isinstance(ctor, ast.Call) and any(k.arg is None for k in ctor.keywords):
                 insts.append(Inst(RULE, f.short, construct, 'unproven',
                                   msg='the constructor receives its arguments through **mapping: field not traced',
+                                  file=rel, line=ctor.lineno, props=props))
+                continue
+            if val is None and F in mutated_fields and F not in appended_in_loop:
+                insts.append(Inst(RULE, f.short, construct, 'unproven',
+                                  msg=f'{copied}.{F} is filled in place in a form this rule does not interpret',
                                   file=rel, line=ctor.lineno, props=props))
                 continue
             if val is None:
